@@ -801,9 +801,15 @@ func ketOracleCase(r *rand.Rand) (failure string) {
 		if rounds > 400 {
 			rounds = 400
 		}
+		// in a third of the cases the steady traffic is empty application messages (the shape of an application-level
+		// ping): they are authenticated traffic like any other, are delivered, and keep the session from being idle
+		emptyApp := r.Intn(3) == 0
 		for k := 0; k < rounds; k++ {
 			for _, cid := range []int{0, 1} {
 				p := fmt.Sprintf("r%d-%d", k, cid)
+				if emptyApp {
+					p = ""
+				}
 				ctx, cf := context.WithTimeout(context.Background(), ms(bound*pa.bo))
 				errc := make(chan error, 1)
 				go func() { errc <- st.chans[cid].Send(ctx, p2p.IOVec{[]byte(p)}) }()
